@@ -145,7 +145,7 @@ def window_behaviours(b, v, tier):
             n += 1
             v.count()
             for ci, ((ms, me), (s_, e_, t0, t1)) in enumerate(zip([p[0] for p in pred], res)):
-                clock = me >= 90                   # the model took this window from the clock (Nows = {100, 103} lie apart from every option value)
+                clock = 90 <= me < 1000            # the model took this window from the clock (Nows = {100, 103} lie apart from every option value; 20000 is a date in the future)
                 want_ok = (e_ - s_ == WEEK and t0 - 2 <= e_ <= t1 + 2) if clock else (s_, e_) == (conc(ms), conc(me))
                 first = ci == 0
                 given = [x for x in seq[:[i for i, y in enumerate(seq) if y[0] == "call"][0]]]
@@ -186,6 +186,9 @@ def run(tier):
         rec, var, (fname, flags, enc) = args
         c = ar.build_case(rec, pool, var + (v.seed - 1) * 13)
         window = (1700000000 + var * 1000, 1700000000 + var * 1000 + 86400 * (1 + var % 5)) if var % 2 == 1 else (None, None)
+        if var % 8 == 3:
+            # a window that reaches into the future (a job prepared ahead of time): passed on as given
+            window = (int(time.time()) - 86400 * (1 + var % 3), int(time.time()) + 86400 * (2 + var % 5))
         if not rec["cli"] and window[0] is None:
             window = (1700000000, 1700600000)       # the library takes the window from its caller
         wd = tempfile.mkdtemp(prefix="w-", dir=root)
@@ -196,6 +199,15 @@ def run(tier):
                     with open(os.path.join(d, on + ".%d" % i), "wb") as f:
                         f.write(b'{"stale":"line written by an earlier run with the same --outputFile"}\n' * (3000 if i % 2 == 0 else 1))
             c.prepare = prep
+        if rec["cli"] and var % 4 == 1 and c.prepare is None and window[0] is not None:
+            # an earlier run for the same hosts and the same window was killed before its clean-up: its downloads (other bytes) are still in the
+            # temp directory, under the names this tool gives such files
+            def plant(d, names=c.names, w=window):
+                import gzip as _gz
+                for j, (h, _) in enumerate(names):
+                    with open(os.path.join(d, "tmp", "mongod_%s_%d_%d_stale0%d.log.gz" % (h, w[0], w[1], j)), "wb") as f:
+                        f.write(_gz.compress(b'{"t":{"$date":"2020-01-01T00:00:00.000+00:00"},"s":"I","c":"NETWORK","id":1,"ctx":"stale","msg":"left by an earlier run"}\n' * (j + 1)))
+            c.prepare = plant
         obs = ar.run_case(b, c, wd, flags=flags, start=window[0], end=window[1], encrypt=enc)
         exp = None
         if obs["level"] == "cli":
